@@ -295,6 +295,17 @@ def c12_r4(ctx):
                         origins.append((h, b3, t3, s3.operand(t3['args'][argi - 1])))
         else:
             origins.append((g, bi, t, idx_term))
+        if not origins and g.kind == 'closure':
+            # the index is the parameter of a closure handed to an element-wise adapter: `(0..k).for_each(|i| ..)` - the indexes are
+            # the elements of the iterator the adapter is applied to
+            gp = getattr(g, 'path', None)
+            for h in fam:
+                s3 = q.sym(facts, h)
+                for b3, t3 in h.calls():
+                    if (t3['callee'].get('path') or '') not in ('std::iter::Iterator::for_each', 'std::iter::Iterator::try_for_each'):
+                        continue
+                    if any(a_[0] != 'k' and is_local(a_[1]) and h.locals[a_[1][0]].get('closure') == gp for a_ in t3['args'][1:]):
+                        origins.append((h, b3, t3, s3.operand(t3['args'][0])))
         if not origins:
             raise AnchorMissing('no call site of %s found' % g.name)
         for h, b3, t3, term in origins:
@@ -371,6 +382,20 @@ def c14_r4(ctx):
         for bi, at, tm in writes:
             uses = _find(tm, lambda x: x and x[0] in ('phi', 'local') and len(x) > 1 and x[1] == R)
             if not uses:
+                dnf_ = q.cond_of_block(facts, sp, bi)
+                # `match ret { Some(x) => Some(x), None => <flush the open session> }`: on this path the holder is known to be None -
+                # nothing was taken out of the manager, so nothing can be lost
+                if dnf_ and all(any(a[0] == 'is' and a[2] == 'None' and ('phi_%d' % R) == a[1] for a in c) for c in dnf_):
+                    continue
+                # the same fact read from the abstract state: in every state in which this block is entered the holder is None
+                try:
+                    from ..facts import pkey as _pk
+                    g_ = q.pe(facts, sp).it.explore(0, {})
+                    vals_ = [g_.pre_term[n_].get(_pk([R])) for n_ in g_.pre_term if g_.block(n_) == bi]
+                    if vals_ and all(v_ == ('v', frozenset(['None'])) for v_ in vals_):
+                        continue
+                except Exception:
+                    pass
                 ed = sorted(edges(q.cond_of_block(facts, sp, bi)))
                 ctx.viol('%s|expired-session-dropped|%s' % (sp.path, '+'.join(ed) or 'other'), at,
                          'on the %s edge SessionWindowManager::process returns `%s`, which does not contain the result of the session the gap '
